@@ -58,6 +58,7 @@ def ensure_facts(repo=REPO, verbose=True):
         out = os.path.join(CACHE, 'facts', hsh)
         done = os.path.join(out, 'DONE')
         if os.path.exists(done) and all(os.path.exists(os.path.join(out, f)) for f in FACT_FILES):
+            os.utime(out)
             return out, json.load(open(done))
         if os.path.isdir(out):
             shutil.rmtree(out)
@@ -90,7 +91,7 @@ def ensure_facts(repo=REPO, verbose=True):
         json.dump(info, open(done, 'w'))
         # keep only the 4 most recent fact dirs
         dirs = sorted(glob.glob(os.path.join(CACHE, 'facts', '*')), key=os.path.getmtime)
-        for d in dirs[:-4]:
+        for d in dirs[:-8]:
             shutil.rmtree(d, ignore_errors=True)
         if verbose:
             sys.stderr.write('[facts] extracted in %.1fs -> %s\n' % (dt, out))
